@@ -2,6 +2,7 @@
  * modes: enc (all strings len 0..3), grp4 (4-char groups through base64_decode),
  *        cls (class-alphabet strings through jwt_base64uri_decode), rand (long random strings) */
 #include "vh.h"
+#include <pthread.h>
 
 int jwt_base64uri_encode(char **_dst, const char *plain, int plain_len);
 void *jwt_base64uri_decode(const char *src, int *ret_len);
@@ -107,6 +108,25 @@ static void check_dec(const char *s, size_t n)
 	}
 	free(got);
 	free(copy);
+}
+
+static pthread_barrier_t cold_barrier;
+static void *cold_worker(void *arg)
+{
+	struct { unsigned char bin[3001]; char txt[4100]; size_t tl; int bad; } *w = arg;
+	int dl = -1;
+	unsigned char *got;
+	char *enc = NULL;
+	pthread_barrier_wait(&cold_barrier);
+	got = jwt_base64uri_decode(w->txt, &dl);
+	if (!got || dl != (int)sizeof(w->bin) || memcmp(got, w->bin, sizeof(w->bin))) w->bad |= 1;
+	free(got);
+	if (jwt_base64uri_encode(&enc, (const char *)w->bin, (int)sizeof(w->bin)) < 0 || !enc || strcmp(enc, w->txt)) w->bad |= 2;
+	free(enc);
+	got = jwt_base64uri_decode("QUJD", &dl);
+	if (!got || dl != 3 || memcmp(got, "ABC", 3)) w->bad |= 4;
+	free(got);
+	return NULL;
 }
 
 int main(int argc, char **argv)
@@ -272,6 +292,24 @@ int main(int argc, char **argv)
 				for (size_t j = 0; j < n; j++) if (!s[j]) s[j] = '!';
 				check_dec(s, n);
 			}
+		}
+	} else if (!strcmp(a.mode, "cold")) {
+		/* the process's very first encodes/decodes, made by several threads at once (tables built on first use must not be
+		 * visible half-built): every result is compared with the reference codec */
+		enum { NT = 12 };
+		static pthread_t th[NT];
+		static struct { unsigned char bin[3001]; char txt[4100]; size_t tl; int bad; } W[NT];
+		for (int t = 0; t < NT; t++) {
+			vh_rand_bytes(&r, W[t].bin, sizeof(W[t].bin));
+			W[t].tl = vh_b64u_enc(W[t].bin, sizeof(W[t].bin), W[t].txt);
+		}
+		pthread_barrier_init(&cold_barrier, NULL, NT);
+		for (int t = 0; t < NT; t++) if (pthread_create(&th[t], NULL, cold_worker, &W[t])) vh_harness_fail("pthread_create");
+		for (int t = 0; t < NT; t++) pthread_join(th[t], NULL);
+		for (int t = 0; t < NT; t++) {
+			n_eval += 3; n_judged += 3;
+			if (W[t].bad) viol("cold-start", "first concurrent use: decode/encode of valid text gave a wrong result", W[t].txt, 40, NULL, W[t].bad);
+			else n_roundtrip++;
 		}
 	} else
 		vh_harness_fail("unknown mode %s", a.mode);
